@@ -2,6 +2,7 @@ package main
 
 import (
 	"fmt"
+	"go/token"
 	"go/types"
 	"sort"
 
@@ -315,6 +316,26 @@ func ruleTX2(c *Ctx) []Ob {
 				o.add(OK, k, pos, "no store write on any path to this return")
 				continue
 			}
+			// every write that may precede this return is a call to a helper that reports,
+			// through a boolean result tested on the way here, that it returned before writing
+			refined := true
+			for _, wb := range fn.Blocks {
+				if !blockWrites[wb] || !(wb == b || reachableFrom(wb, false)[b]) {
+					continue
+				}
+				for _, in := range wb.Instrs {
+					if !isWrite(in) {
+						continue
+					}
+					if !c.noWriteWhen(in.(*ssa.Call), b) {
+						refined = false
+					}
+				}
+			}
+			if refined {
+				o.add(OK, k, pos, "the helpers that write report (boolean result tested on the way to this return) that they returned before any store write")
+				continue
+			}
 			// commit result?
 			isCommit := true
 			for _, og := range origins(rv) {
@@ -373,6 +394,131 @@ func ruleTX2(c *Ctx) []Ob {
 		}
 	}
 	return o.list
+}
+
+// writtenBefore: per block of fn, whether a store write (not Commit) may have
+// happened before the block's last instruction.
+func (c *Ctx) writtenBefore(fn *ssa.Function) map[*ssa.BasicBlock]bool {
+	blockWrites := map[*ssa.BasicBlock]bool{}
+	for _, b := range fn.Blocks {
+		for _, in := range b.Instrs {
+			if call, ok := in.(*ssa.Call); ok && !c.isCommit(call) && c.callEff(call)&EffWrites != 0 {
+				blockWrites[b] = true
+			}
+		}
+	}
+	in := map[*ssa.BasicBlock]bool{}
+	for changed := true; changed; {
+		changed = false
+		for _, b := range fn.Blocks {
+			if in[b] {
+				continue
+			}
+			for _, p := range b.Preds {
+				if in[p] || blockWrites[p] {
+					in[b] = true
+					changed = true
+				}
+			}
+		}
+	}
+	out := map[*ssa.BasicBlock]bool{}
+	for _, b := range fn.Blocks {
+		out[b] = in[b] || blockWrites[b]
+	}
+	return out
+}
+
+// noWriteWhen: call is a static call to a library helper with a boolean result r
+// such that block b is only reached when r == K, and the helper returns r == K
+// (or a non-constant r) only on paths on which it has not written to the store.
+func (c *Ctx) noWriteWhen(call *ssa.Call, b *ssa.BasicBlock) bool {
+	g := staticCallee(call)
+	if g == nil || !c.IsLib(g) || len(g.Blocks) == 0 {
+		return false
+	}
+	fn := call.Parent()
+	res := g.Signature.Results()
+	for i := 0; i < res.Len(); i++ {
+		if bt, ok := res.At(i).Type().Underlying().(*types.Basic); !ok || bt.Kind() != types.Bool {
+			continue
+		}
+		var vals []ssa.Value
+		if res.Len() == 1 {
+			vals = []ssa.Value{call}
+		} else {
+			for _, e := range extractsOf(call, i) {
+				vals = append(vals, e)
+			}
+		}
+		isRes := func(v ssa.Value) bool {
+			for _, x := range vals {
+				if x == v {
+					return true
+				}
+			}
+			return false
+		}
+		for _, K := range []bool{false, true} {
+			// edges on which the result is known to be K
+			var cut []edge
+			ifEdges(fn, func(cond ssa.Value, e edge) {
+				neg := false
+				for {
+					if u, ok := cond.(*ssa.UnOp); ok && u.Op == token.NOT {
+						cond = u.X
+						neg = !neg
+						continue
+					}
+					break
+				}
+				if !isRes(cond) {
+					return
+				}
+				val := e.Branch != neg // value of the result on this edge
+				if val == K {
+					cut = append(cut, e)
+				}
+			})
+			if len(cut) == 0 || !guardedBy(fn, b, cut) {
+				continue
+			}
+			wb := c.writtenBefore(g)
+			ok := true
+			// is b also only reached when the helper's error result is nil?
+			ej := errResultIndex(g.Signature)
+			errNil := false
+			if ej >= 0 && res.Len() > 1 {
+				var ne []edge
+				for _, e := range extractsOf(call, ej) {
+					ne = append(ne, nilEdges(fn, sameValue(e))...)
+				}
+				errNil = len(ne) > 0 && guardedBy(fn, b, ne)
+			}
+			for _, ret := range returnsOf(g) {
+				rv, has := returnedValue(ret, i)
+				if !has {
+					ok = false
+					break
+				}
+				if errNil {
+					if ev, has := returnedValue(ret, ej); has && c.provablyNonNil(g, ev, ret.Block()) {
+						continue
+					}
+				}
+				if cb, isC := constBool(rv); isC && cb != K {
+					continue
+				}
+				if wb[ret.Block()] {
+					ok = false
+				}
+			}
+			if ok {
+				return true
+			}
+		}
+	}
+	return false
 }
 
 // ---------------------------------------------------------------- TX3
